@@ -26,6 +26,13 @@ The canonical fingerprint of everything returned AND the complete decision log o
 created must be identical in all runs (eight for a solve) (vlib/reprokit.py).  A difference is an oracle violation; the replay
 is the job, the pair of runs and the first differing place.
 
+History independence (history_family, reprokit.run_history): reference solve with fresh objects; a solve that uses
+configuration objects a user may legitimately reuse (a STATEFUL termination criterion, the optimiser, the raw primitives
+and pass manager, the executor - one of them or all) and is aborted mid-evolution by an injected failure (an operator
+application that raises / the evaluator's primitive breaking down inside a task, after generation 0 or 1); then a fresh
+solver with the same seed and configuration and those SAME objects: its fingerprint and decision log must equal the
+reference's (key solve:history-independence).
+
 Correspondence: the logged traces replay through the Coq model (QV.Repro.ReproCheck / QV.Evqe.C20Check): from the
 master generator's decisions the model predicts which seed every component and every submitted task receives, in
 which order, and the initial population.  A log the model does not accept is a broken correspondence: the property is then no longer shown
@@ -439,6 +446,52 @@ def compose_family(ctx, n):
     ctx.tally("compose:replays_accepted", len(cases) - len(bad))
 
 
+CRITERIA = [["best_abs", 1e-9, 0], ["best_abs", 0.05, 0], ["best_rel", 0.01, 0], ["pop_abs", 0.01, 0], ["pop_rel", 0.01, 1], ["best_abs", 1e-9, 1]]
+
+
+def history_jobs(rng, n):
+    """'History independence' sequences (reprokit.run_history): reference solve / aborted solve using shared configuration
+    objects / retry by a fresh solver with the same seed and the SAME objects.  Stateful termination criteria, so that
+    state left behind by the aborted solve matters; the failure is injected after generation 0 or 1."""
+    from vlib import reprokit as rk
+
+    jobs = []
+    for k, job in enumerate(solve_setups(rng, n, True)):
+        s = job["setup"]
+        s.update(mutex=False, aux=None, max_generations=rng.choice([3, 4]), n_qubits=[2, 1, 2, 2][k % 4],
+                 population_size=rng.randint(2, 3), n_initial_layers=1, tournament_size=None, tournament=False,
+                 optimizer=["coordinate", "coordinate", "nft", "spsa"][k % 4], evaluator=["estimator", "sampler", "bitstring"][k % 3])
+        fail = {"how": "operator", "at": rng.choice([3, 4, 5, 6, 8])} if k % 3 != 2 else {"how": "primitive", "frac": rng.choice([0.5, 0.7])}
+        jobs.append({"kind": "history", "setup": s, "share": rk.SHARE_MODES[k % len(rk.SHARE_MODES)],
+                     "criterion": CRITERIA[k % len(CRITERIA)], "fail": fail, "ambient": 11 + k})
+    return jobs
+
+
+def history_family(ctx, jobs, origin="generated"):
+    """Oracle: the retry equals the reference (fingerprint of the full result and complete decision log)."""
+    from vlib import reprokit as rk
+
+    for job in jobs:
+        try:
+            h = rk.run_history(job)
+        except Exception as e:  # the sequence could not be driven at all
+            ctx.violation("oracle", "solve:history-independence", f"history sequence fails: {type(e).__name__}: {e}", case=dict(job=job, origin=origin))
+            continue
+        ctx.case(job, True)
+        ctx.tally("history:sequences")
+        ctx.tally(f"history:share:{job['share']}")
+        ctx.tally(f"history:criterion:{job['criterion'][0]}")
+        ctx.tally("history:aborted_by_injected_failure" if "raise" in h["aborted"]["outcome"] else "history:first_solve_completed")
+        ctx.tally("history:reference_raised" if "raise" in h["reference"]["fp"]["result"] else "history:reference_ok")
+        diff = rk.compare_runs(h["reference"], h["retry"])
+        if diff:
+            ctx.tally("differs:history")
+            ctx.violation("oracle", "solve:history-independence",
+                          f"a freshly constructed solver (same seed and configuration) that reuses the {job['share']} configuration object(s) of an earlier, "
+                          f"aborted solve does not reproduce the reference solve; first difference in the {diff['where']} at {diff['path']}",
+                          case=dict(job=job, origin=origin), detail=dict(diff, aborted=h["aborted"]))
+
+
 def run(ctx):
     translate.check_link(ctx, "C17")  # regenerate Gallina from /repo's current evqe.py; link lemmas coq/link/C17Link.v
     if not rnglog.selftest():
@@ -458,7 +511,9 @@ def run(ctx):
     jobs += constructor_jobs(ctx.rng, ctx.n(200, 2400))
     jobs += optimize_jobs(ctx.rng, ctx.n(24, 240))
     ctx.notes["corpus_cases"] = n_corpus
-    run_jobs(ctx, jobs)
+    run_jobs(ctx, [j for j in jobs if j["kind"] != "history"])
+    history_family(ctx, [j for j in jobs if j["kind"] == "history"], origin="corpus")
+    history_family(ctx, history_jobs(ctx.rng, ctx.n(10, 60)))
     compose_family(ctx, ctx.n(4, 36))
 
 
@@ -466,6 +521,14 @@ def replay(ctx, payload):
     if translate.is_link_replay(payload) and not payload.get("failing_input"):
         return translate.replay(ctx, payload, "C17")
     case = payload.get("case") or payload
+    if case.get("job", {}).get("kind") == "history":
+        history_family(ctx, [case["job"]], origin="replay")
+        for v in ctx.violations:
+            print("REPRODUCED:", v["what"])
+            print(json.dumps(v["detail"], indent=1)[:3000])
+        if not ctx.violations:
+            print("the retry reproduces the reference")
+        return
     if case.get("family") == "compose":
         from vlib import composekit as ck
 
